@@ -16,7 +16,7 @@ func init() {
 		Explanation: "The bound is real time and is not decided. Decided are the structural necessary conditions of any bound of the stated form (one attempt for a deposed leader, three for an unreachable store): (R1) every refresh attempt is time-bounded: the Update runs in its own loop-free goroutine that reports through a buffered channel, and the loop waits for it in a select that also has a timer case with duration max(H/2, 1s) and a ctx.Done() case; " +
 			"(R2) on a failed attempt a permanent error demotes at once and returns; otherwise a loop-carried counter is incremented by exactly 1, demotion + return happen at counter >= 3, and the counter is reset to 0 only on the success edge; (R3) no store operation is issued in an iteration unless the claim was read true in that iteration; " +
 			"(R4) the claim-set unit starts the refresh loop in the critical section that sets the claim, and the loop returns only on claim == false or after a (possibly no-op) demotion - also when its context is done, so that a cancelled Start context ends the claim; (R5) the NATS client's revision-conflict errors are classified permanent (C15-R3, shared); (R6) a demotion clears the claim and runs OnDemote (C08, shared); (R7) every tick of a standing claim is a refresh attempt, a counted failure or a demotion; (R8) the ticker period is the heartbeat interval; (R9) the periodic loops of a term (refresh, validation) run under that term's context, which every demotion cancels, so that no loop of an earlier term runs next to a later term's; (R10) the loop's own goroutine never issues a store operation (a hanging store cannot keep it from ticking, timing out and demoting).",
-		NotDecided: []string{"the numeric bound (H + 2 time-outs; 3H + 3 time-outs)", "that time.After and the ticker fire on time", "that a lost acknowledgement (write applied, response lost) is detected at the next attempt: follows from R2+R5 given the store's revision check"},
+		NotDecided: []string{"the numeric bound (H + 2 time-outs; 3H + 3 time-outs); observed once by probe: for H below ~333 ms a refresh that succeeds only after d > 3H makes a then cut-off leader step down d + 3T after the start of that refresh (T is floored at 1 s), which exceeds 3H + 3T - a timing matter without a small repair", "that time.After and the ticker fire on time", "that a lost acknowledgement (write applied, response lost) is detected at the next attempt: follows from R2+R5 given the store's revision check"},
 		Assumptions: []string{"time.After / time.Ticker semantics", "the store's Update is revision-checked (C14)"},
 		Rules: map[string]string{
 			"R1": "refresh Update in a `go` closure without loops, one store op, one send on a channel of capacity >= 1; parent select is blocking with a receive on that channel, on time.After(d) and on ctx.Done(); d == select[(H/2) if !(H/2 < 1s) | 1s if (H/2 < 1s)]",
